@@ -118,6 +118,7 @@ def run_case(
     env: Env | None = None,
     graphs: list | None = None,
     cache: Any = None,
+    ctl: Any = None,
 ) -> dict:
     """Build the program with real hypergraph objects, run it, return the canonical observation."""
     cfg = cfg or {}
@@ -160,8 +161,20 @@ def run_case(
             else:
                 if max_concurrency is not None:
                     kwargs["max_concurrency"] = max_concurrency
-                coro = AsyncRunner(cache=cache).run(g, vals, **kwargs)
-                if loop_factory is not None:
+                if ctl is not None:
+                    from . import sched
+
+                    env.park = ctl.park
+                    try:
+                        result = sched.run_controlled(lambda: AsyncRunner(cache=cache).run(g, vals, **kwargs), ctl)
+                    finally:
+                        env.park = None
+                    coro = None
+                else:
+                    coro = AsyncRunner(cache=cache).run(g, vals, **kwargs)
+                if coro is None:
+                    pass
+                elif loop_factory is not None:
                     loop = loop_factory()
                     try:
                         result = loop.run_until_complete(coro)
